@@ -189,3 +189,45 @@ def structured(rng, maxdim=7, ternary=True):
     if rng.below(3) == 0:
         M = corrupt(rng, M, (-1, 0, 1) if ternary else (0, 1))
     return M
+
+
+def r10_pattern_matrices():
+    """all 5x5 0/1 matrices that pass the row/column count test of regularity_r10.c:
+    every line has 3 ones, or four lines have 3 and one has 5 (rows and columns independently)"""
+    out = []
+    rows3 = [r for r in itertools.product((0, 1), repeat=5) if sum(r) == 3]
+    rows5 = [(1, 1, 1, 1, 1)]
+
+    def ok_cols(M):
+        cs = sorted(sum(M[i][j] for i in range(5)) for j in range(5))
+        return cs == [3, 3, 3, 3, 3] or cs == [3, 3, 3, 3, 5]
+
+    def rec(prefix, pool_list):
+        if len(prefix) == 5:
+            if ok_cols(prefix):
+                out.append([list(r) for r in prefix])
+            return
+        k = len(prefix)
+        for r in pool_list[k]:
+            # prune: column sums must stay <= 5 and be able to reach 3
+            cs = [sum(p[j] for p in prefix) + r[j] for j in range(5)]
+            rem = 4 - k
+            if any(c + rem < 3 for c in cs):
+                continue
+            rec(prefix + [r], pool_list)
+
+    rec([], [rows3] * 5)
+    for pos in range(5):
+        pools = [rows3] * 5
+        pools = pools[:pos] + [rows5] + pools[pos + 1:]
+        rec([], pools)
+    return out
+
+
+def passes_r10_count(entries):
+    """entries: 25 tokens of a 5x5 matrix; the count test of regularity_r10.c on the support"""
+    M = [[1 if entries[5 * i + j] not in ("0", 0) else 0 for j in range(5)] for i in range(5)]
+    rs = sorted(sum(r) for r in M)
+    cs = sorted(sum(M[i][j] for i in range(5)) for j in range(5))
+    ok = ([3, 3, 3, 3, 3], [3, 3, 3, 3, 5])
+    return rs in ok and cs in ok
